@@ -140,3 +140,25 @@ CHECKS["C19"] = {
     "note": "Trusted: gen.snapshot deep comparison (dict order not part of equality). Annealer calls kept tiny; plain build of the extension.",
     "technique": "property-based testing: Hypothesis-generated models, mutations and API calls with snapshot-equality (round-trip and non-interference) oracles",
 }
+
+# additions of session 3 (appended to the level text of the checks they concern)
+_ADD = {
+    "C01": " Before the judged conversion an optional pre-history runs on the same object (a first export, then set_mapping / set_reverse_mapping / a coefficient edit followed by refresh() / an edited copy / a different export). Coefficients also as numpy scalars and Fractions.",
+    "C02": " A validity query precedes every change; constraints are also brought in with update(model) (mode via_update); P, lam and bounds also as numpy scalars / Fractions.",
+    "C03": " Same additions as C02 (validity query before every change, via_update, number types).",
+    "C04": " Sub-check lifecycle: one object through edited (poisoned) exports, clear + rebuild, variable drop + refresh + new variable, set_mapping / set_reverse_mapping and edits, all exports and convert_solution re-judged after every step. Sub-check highdeg: terms of degree 7..12. Solution entries as python ints, floats and numpy scalars; 0/1 matrices as bools / uint8; coefficients as numpy scalars and Fractions.",
+    "C05": " Sub-check crosstype: every ordered pair of different model types of one family with unequal numbers of terms. Leaves also made with boolean_var / spin_var / integer_var; coefficients and scalars also as numpy scalars and Fractions; label pools with int/float mixes and hash twins.",
+    "C06": " Sub-check wide: 5..10 gate operands (+ target) over 12-label pools. Cases whose labels have hash twins (-1/-2, 0/2^61-1) are re-run in the same process with the twin labels.",
+    "C08": " Between two constraints the pipeline may export all four forms and call solve_bruteforce (intermediate results discarded), then continue.",
+    "C09": " Coefficients also as numpy scalars and Fractions; label pools include ints that look like range(n) by max and length but are not.",
+    "C10": " SetCover up to 5 elements / 5 subsets including a hub shape (an element in three indispensable subsets).",
+    "C11": " Explicit schedules are handed over as list of floats, python ints, tuple, numpy array, generator or Fractions; shrinking and zig-zag size sequences in the enumerated sizes sub-check. A shard that dies inside the library is replayed in a fresh interpreter; a reproducible crash is reported as a violation.",
+    "C12": " Sub-check xproc: the same seeded calls in a fresh interpreter with another PYTHONHASHSEED must agree with this process. The second call of repro passes the same seed as a numpy integer and the same explicit schedule in another form (ints, tuple, numpy array, generator, Fractions).",
+    "C13": " State entries also as numpy unsigned / signed scalars and floats (per history).",
+    "C14": " History operation update_constrained: update() with a model of the same type that carries ancilla-using constraints (while the target has none of its own); values of a history also as numpy scalars / Fractions.",
+    "C15": " Sub-check exact: Fractions and integers beyond 2^53 judged in exact arithmetic; coefficients also as numpy scalars.",
+    "C16": " Optionally one linear term with an exact coefficient (2^62+1, 2^53+1, a Fraction) that must come through subs() unchanged in type and value.",
+    "C17": " Size sequences also shrinking and zig-zag (what a call keeps for the next one is exercised by a smaller model afterwards); schedule forms as in C11.",
+}
+for _k, _v in _ADD.items():
+    CHECKS[_k]["text"] = CHECKS[_k]["text"] + _v
